@@ -109,6 +109,22 @@ def api_readback(ctx, c, expected):
                 want = rr_children.get(path, set())
                 if got != want:
                     problems.append(('api-rr-children', 'rr_path %s lists %d children, the edits imply %d' % (p[:80], len(got), len(want))))
+                    continue
+                # each listed sub-directory must be THE sub-directory of that path (relocated directories with equal
+                # names are told apart by the link, not by the name): its own children are those of the logical path
+                try:
+                    for ch in iso2.list_children(rr_path=p):
+                        if ch is None or ch.is_dot() or ch.is_dotdot() or not ch.is_dir() or ch.rock_ridge is None:
+                            continue
+                        sub = path.rstrip('/') + '/' + ch.rock_ridge.name().hex()
+                        if sub.strip('/') == histcheck.RR_MOVED_RR_HEX:
+                            continue
+                        inner = {g.rock_ridge.name().hex() for g in ch.children if g.rock_ridge is not None and not g.is_dot() and not g.is_dotdot()}
+                        if inner != rr_children.get(sub, set()):
+                            problems.append(('api-rr-listed-wrong-directory', 'list_children(rr_path=%s) yields for %s a directory with %d children, the edits imply %d' % (
+                                p[:60], ch.rock_ridge.name()[:20], len(inner), len(rr_children.get(sub, set())))))
+                except Exception as e:  # noqa
+                    problems.append(('api-rr-list-fails', 'children of the entries of %s: %s' % (p[:80], isoapi.exc_class(e))))
         # nothing else appears: every path the history mentions and the specification no longer holds must be gone,
         # both for the object that was edited and for the reopened image
         have = {(ns, path) for (ns, kind, path) in exp}
